@@ -98,11 +98,21 @@ def Ext.restOld (e : Ext) (j : Nat) : List Bytes :=
 def Ext.rest (e : Ext) (j : Nat) : List Bytes :=
   e.rows.map (fun r => slice e.data (r.fS.getD j 0) (r.fS.getLastD 0 + r.fL.getLastD 0 - r.fS.getD j 0))
 
-/-- `SAMBufferExctractor._get_extra_field`: everything after the 11th field, without the line end -/
-def Ext.samExtra (e : Ext) : List Bytes :=
+def byteAt (d : Bytes) (i : Nat) : Nat := d.getD i 0
+
+/-- `SAMBufferExctractor._get_extra_field` as shipped: measured from `entry_ends` (which was CR-adjusted) -/
+def Ext.samExtraOld (e : Ext) : List Bytes :=
   e.rows.map (fun r =>
     let st := r.fS.getLastD 0 + r.fL.getLastD 0 + 1
     slice e.data st (r.eE - st - 1))
+
+/-- `SAMBufferExctractor._get_extra_field` (repaired): everything after the 11th field and its
+separator, up to the line terminator ("\n" or "\r\n") -/
+def Ext.samExtra (e : Ext) : List Bytes :=
+  e.rows.map (fun r =>
+    let st := r.fS.getLastD 0 + r.fL.getLastD 0 + 1
+    let lineEnd := r.eE - 1 - (if byteAt e.data (r.eE - 2) == 13 then 1 else 0)
+    slice e.data st (lineEnd - st))
 
 /-! ### construction from a raw chunk -/
 
@@ -113,8 +123,6 @@ def posFrom (p : Nat → Bool) : Nat → Bytes → List Nat
 def chunksOf {α} (n : Nat) : Nat → List α → List (List α)
   | 0, _ => []
   | f + 1, l => if l.isEmpty || n == 0 then [] else l.take n :: chunksOf n f (l.drop n)
-
-def byteAt (d : Bytes) (i : Nat) : Nat := d.getD i 0
 
 /-- subtract one from the end of the last field of a row when the byte before it is CR -/
 def stripCR (d : Bytes) (ends : List Nat) : List Nat :=
@@ -153,9 +161,9 @@ def groupLines (d : Bytes) : List Nat → List Nat → List (List Nat)
   | [], _ => []
   | p :: ps, cur => if byteAt d p == 10 then (cur ++ [p]) :: groupLines d ps [] else groupLines d ps (cur ++ [p])
 
-/-- `SAMBuffer._get_buffer_extractor`: the first 11 columns are fields, the record runs to the
-newline; on the shipped code a CR before the first newline makes `_modify_for_carriage_return` raise
-(`RaggedArray` has no `copy`) — modelled as `none` -/
+/-- `SAMBuffer._get_buffer_extractor` (+ its `_modify_for_carriage_return`): the first 11 columns
+are fields, the record runs to one past the newline; when the first line ends in CR, a CR before
+each line's newline is stripped from the line's last column -/
 def buildSam (raw : Bytes) : Option Ext :=
   let delims := posFrom (fun b => b == 10 || b == 9) 0 raw
   let groups := groupLines raw delims []
@@ -168,10 +176,10 @@ def buildSam (raw : Bytes) : Option Ext :=
     let cr := match groups.head? with
       | some g0 => (g0.getLastD 0 != 0) && byteAt data (g0.getLastD 0 - 1) == 13
       | none => false
-    if cr then none else
     if groups.any (fun g => g.length < 11) then none else
+    let groups' := if cr then groups.map (stripCR data) else groups
     let sRows := List.zipWith (fun ls g => (ls :: g.map (· + 1)).take 11) lineStarts groups
-    let eRows := groups.map (·.take 11)
+    let eRows := groups'.map (·.take 11)
     some { data := data, fStart := sRows,
            fLen := List.zipWith (fun ss es => List.zipWith (fun s e => e - s) ss es) sRows eRows,
            eStart := lineStarts,
@@ -299,7 +307,34 @@ def specFields (nF : Nat) (repl : List (Nat × List Bytes)) (recs : List Rec) : 
 end C04
 
 namespace C04
+/-! ### executable checker of the representation invariant (proved sound in Props; the driver
+evaluates it on every extractor built from a generated file) -/
+def rowWFb (dlen : Nat) (r : Row) : Bool :=
+  decide (r.eS ≤ r.eE) && decide (r.eE ≤ dlen) && (r.fS.length == r.fL.length) &&
+  r.fS.all (fun s => decide (r.eS ≤ s)) && (List.zip r.fS r.fL).all (fun p => decide (p.1 + p.2 ≤ r.eE))
+
+def Ext.invB (e : Ext) : Bool :=
+  (e.fLen.length == e.fStart.length) && (e.eStart.length == e.fStart.length) && (e.eEnd.length == e.fStart.length) &&
+  e.rows.all (rowWFb e.data.length) && (!e.contiguous || e.data == specBytes e.abs)
+
+/-- rest of line from field j, as a function of the abstract record -/
+def Rec.rest (r : Rec) (j : Nat) : Bytes :=
+  match r.rel[j]?, r.rel.getLast? with
+  | some (s, _), some (ls, ll) => slice r.raw s (ls + ll - s)
+  | _, _ => []
+
+/-- everything after the last regular field and its separator, up to the line terminator
+("\n" or "\r\n") (SAM tags) -/
+def Rec.extra (r : Rec) : Bytes :=
+  match r.rel.getLast? with
+  | some (ls, ll) =>
+    let lineEnd := r.raw.length - 1 - (if byteAt r.raw (r.raw.length - 2) == 13 then 1 else 0)
+    slice r.raw (ls + ll + 1) (lineEnd - (ls + ll + 1))
+  | none => []
+end C04
+
+namespace C04
 /-- which rule the current tree uses for the record end of delimited formats
 (false = shipped `ends[:, -1] + 1` after CR stripping, true = repaired) -/
-def delimitedFixed : Bool := false
+def delimitedFixed : Bool := true
 end C04
